@@ -8,6 +8,8 @@ from vf.codec_ref import LINE_TERMINATORS, VERSIONS
 
 versions = st.sampled_from(VERSIONS)
 versions2 = st.sampled_from(("2.0", "2.1", "2.2"))
+# release strings a real gateway reports, pinned through the public setter (same rules as their major.minor)
+versions_any = st.sampled_from(VERSIONS + VERSIONS + ("2.2.0", "2.3.2", "2.1.1", "2.0.0", "1.5.1", "1.4.2", "2.4", "3.0.0", "1.0"))
 
 BOUNDARY_IDS = (0, 1, 9, 10, 99, 100, 254, 255)
 node_ids = st.one_of(st.sampled_from(BOUNDARY_IDS), st.integers(0, 255))
